@@ -1,6 +1,6 @@
 #!/bin/sh
 # run every registered check on the current /repo tree (quick tier unless $1 = thorough); print one line each
-cd /verif || exit 2
+cd "$(dirname "$0")/.." || exit 2
 tier=${1:-quick}
 git -C /repo status --short | grep -q . && echo "WARNING: /repo working tree is not clean"
 rc=0
